@@ -253,6 +253,22 @@ func runC04(c *core.Ctx, ck *Check) {
 					w.Count("wrong_answers", 1)
 				}
 			}
+			// twin questions (same concatenation of the two argument texts, split elsewhere), asked right after the
+			// original and judged by the same oracle
+			for n := 0; n < 3; n++ {
+				pr := p.Strs[r.IntN(len(p.Strs))]
+				for _, tq := range twinQuestions(text, pr) {
+					eco.SafeVersContains(text, pr)
+					w.Count("evaluations", 1)
+					w.Count("twin_questions", 1)
+					for _, v := range evalC04(c, nil, "vers", []string{tq[0], tq[1]}) {
+						if reported["twin"] < 3 {
+							reported["twin"]++
+							w.Report(v)
+						}
+					}
+				}
+			}
 			w.Count("events:VersContains", int64(len(p.Strs)))
 			w.Count("shapes_k"+itoa(k), 1)
 		}
